@@ -111,10 +111,9 @@ package tensor
 //@   requires [nonneg] forall i :: 0 <= i && i < len(axes) ==> axes[i] >= 0
 //@   requires [sep] t.shape.arr != t.strides.arr && axes.arr != t.shape.arr && axes.arr != t.strides.arr
 //@   requires [valid_vec] isVec(t.shape) && len(axes) == n ==> isPermN(axes, n)
-//@   requires [caller_axes] len(axes) > 0 ==> gh("lib", axes.arr) == 0
 //@   ensures [perm] result == nil && n >= 2 && !isVec(old(t.shape)) && !(allOnes(old(t.shape)) || (len(axes) == n && isIdentityN(axes, n))) ==> len(t.shape) == n && (forall i :: 0 <= i && i < n ==> t.shape[i] == old(t.shape)[(len(axes) == 0 ? n - 1 - i : axes[i])] && t.strides[i] == old(t.strides)[(len(axes) == 0 ? n - 1 - i : axes[i])])
 //@   ensures [thunk] result == nil && n >= 2 && !(allOnes(old(t.shape)) || (len(axes) == n && isIdentityN(axes, n))) ==> t.old.shape == old(t.shape) && t.old.strides == old(t.strides) && len(t.transposeWith) == n
 //@   ensures [noop] (len(axes) == 0 || len(axes) == n) && (allOnes(old(t.shape)) || (len(axes) == n && n > 0 && isIdentityN(axes, n))) ==> result == nil && t.shape == old(t.shape) && t.strides == old(t.strides) && apIsZero(t.old)
-//@   ensures [caller_axes_kept] unchanged(axes) && (len(axes) > 0 ==> gh("lib", axes.arr) == 0)
+//@   ensures [caller_axes_kept] unchanged(axes) && (len(axes) > 0 ==> gh("lib", axes.arr) == old(gh("lib", axes.arr)))
 //@   ensures [not_retained] len(axes) > 0 && !isnil(t.transposeWith) ==> t.transposeWith.arr != axes.arr
 //@   ensures [tw_owned] !isnil(t.transposeWith) ==> gh("lib", t.transposeWith.arr) == 1
